@@ -172,6 +172,9 @@ func parseSubstituteIfArgs(f slip.Object, s *slip.Scope, args slip.List, depth i
 		switch tv := v.(type) {
 		case slip.Fixnum:
 			sr.count = int(tv)
+			if sr.count < 0 {
+				sr.count = 0
+			}
 		case nil:
 			// leave as -1 for now
 		default:
@@ -205,14 +208,18 @@ func (sr *subIfRep) replace(seq slip.List) slip.Object {
 }
 
 func (sr *subIfRep) maybe(seq slip.List, i int) bool {
+	if sr.count <= 0 {
+		return true
+	}
 	v := seq[i]
 	if sr.kc != nil {
 		v = sr.kc.Call(sr.s, slip.List{v}, sr.depth)
 	}
+	// The count limits the replacements, not the elements looked at.
 	if sr.pc.Call(sr.s, slip.List{v}, sr.depth) != nil {
 		seq[i] = sr.rep
+		sr.count--
 	}
-	sr.count--
 	return sr.count <= 0
 }
 
@@ -240,13 +247,16 @@ func (sr *subIfRep) replaceBytes(seq []byte) slip.Object {
 }
 
 func (sr *subIfRep) maybeByte(seq []byte, i int) bool {
+	if sr.count <= 0 {
+		return true
+	}
 	var v slip.Object = slip.Octet(seq[i])
 	if sr.kc != nil {
 		v = sr.kc.Call(sr.s, slip.List{v}, sr.depth)
 	}
 	if sr.pc.Call(sr.s, slip.List{v}, sr.depth) != nil {
 		seq[i] = byte(sr.rep.(slip.Octet))
+		sr.count--
 	}
-	sr.count--
 	return sr.count <= 0
 }
